@@ -21,7 +21,7 @@ def balLine (s : St) : String :=
 def submit (s : St) (t : TxRec) : St × String :=
   let id := s.txs.length
   let s := { s with txs := s.txs ++ [t] }
-  let (cls, s') := admit s id t
+  let (cls, s') := admitTx s id t
   (s', s!"id={id} admit={cls}")
 
 def brokenOf (toks : List String) : Option String :=
@@ -90,7 +90,7 @@ def step (s : Option St) (toks : List String) : Option St × String :=
         if argI toks "id" 0 < 0 then (some s, "notx") else
         match s.txs[id]? with
         | none => (some s, "notx")
-        | some t => let (cls, s') := admit s id t; (some s', s!"admit={cls}")
+        | some t => let (cls, s') := admitTx s id t; (some s', s!"admit={cls}")
       | "block" =>
         let ids := s.pending
         let s' := block s
